@@ -1,16 +1,170 @@
 package compare
 
-import verif "github.com/vedadiyan/genql/zz_verif"
+import (
+	"math"
 
-// H_C15_f64: Compare on two arbitrary non-NaN float64 values agrees with the
-// mathematical order and is antisymmetric.
-func H_C15_f64() {
-	a, b := verif.F64("a"), verif.F64("b")
-	verif.Assume(verif.All(a == a, b == b))
+	verif "github.com/vedadiyan/genql/zz_verif"
+)
+
+var numKinds = []string{"int", "int8", "int16", "int32", "int64", "uint", "uint8", "uint16", "uint32", "uint64", "float32", "float64"}
+
+// mkNum returns a symbolic value of numeric kind k (any bit pattern of that
+// type within the exactly representable range) and its exact float64 value.
+func mkNum(k int, label string) (any, float64) {
+	switch k {
+	case 0:
+		x := verif.IntRange(label, -(1 << 53), 1<<53)
+		return x, float64(x)
+	case 1:
+		x := int8(verif.Int(label))
+		return x, float64(x)
+	case 2:
+		x := int16(verif.Int(label))
+		return x, float64(x)
+	case 3:
+		x := int32(verif.Int(label))
+		return x, float64(x)
+	case 4:
+		x := int64(verif.IntRange(label, -(1 << 53), 1<<53))
+		return x, float64(x)
+	case 5:
+		x := uint(verif.IntRange(label, 0, 1<<53))
+		return x, float64(x)
+	case 6:
+		x := uint8(verif.Int(label))
+		return x, float64(x)
+	case 7:
+		x := uint16(verif.Int(label))
+		return x, float64(x)
+	case 8:
+		x := uint32(verif.Int(label))
+		return x, float64(x)
+	case 9:
+		x := uint64(verif.IntRange(label, 0, 1<<53))
+		return x, float64(x)
+	case 10:
+		x := float32(verif.IntRange(label, -(1 << 24), 1<<24)) / 4
+		return x, float64(x)
+	default:
+		x := verif.F64(label)
+		verif.Assume(verif.All(x == x, x > -math.MaxFloat64, x < math.MaxFloat64))
+		return x, x
+	}
+}
+
+func sign(a, b float64) int {
+	if a < b {
+		return -1
+	}
+	if a > b {
+		return 1
+	}
+	return 0
+}
+
+// H_C15_numeric: for every pair of Go numeric types, Compare returns only
+// -1/0/1, agrees with the mathematical order, and is antisymmetric and
+// reflexive.
+func H_C15_numeric() {
+	ka := verif.Choose("left", len(numKinds))
+	kb := verif.Choose("right", len(numKinds))
+	a, fa := mkNum(ka, "a")
+	b, fb := mkNum(kb, "b")
 	r := Compare(a, b)
 	verif.Assert(verif.Any(r == -1, r == 0, r == 1), "range")
-	verif.Assert(verif.All(verif.Implies(a < b, r == -1), verif.Implies(a == b, r == 0), verif.Implies(a > b, r == 1)), "order")
+	verif.Assert(r == sign(fa, fb), "mathematical-order")
 	verif.Assert(Compare(b, a) == -r, "antisymmetric")
 	verif.Assert(Compare(a, a) == 0, "reflexive")
+	verif.Reach("end")
+}
+
+// H_C15_transitive: within one numeric kind, a<=b and b<=c imply a<=c.
+func H_C15_transitive() {
+	k := verif.Choose("kind", len(numKinds))
+	a, _ := mkNum(k, "a")
+	b, _ := mkNum(k, "b")
+	c, _ := mkNum(k, "c")
+	ab, bc, ac := Compare(a, b), Compare(b, c), Compare(a, c)
+	verif.Assert(verif.Implies(verif.All(ab <= 0, bc <= 0), ac <= 0), "transitive")
+	verif.Assert(verif.Implies(verif.All(ab == 0, bc == 0), ac == 0), "transitive-eq")
+	verif.Reach("end")
+}
+
+// H_C15_strings: two strings compare byte-wise lexicographically.
+func H_C15_strings() {
+	n := 2 + verif.Tier()
+	a, b, c := verif.Str("a", n, ""), verif.Str("b", n, ""), verif.Str("c", n, "")
+	r := Compare(a, b)
+	want := 0
+	if a < b {
+		want = -1
+	} else if a > b {
+		want = 1
+	}
+	verif.Assert(r == want, "byte-wise-order")
+	verif.Assert(Compare(b, a) == -r, "antisymmetric")
+	verif.Assert(Compare(a, a) == 0, "reflexive")
+	if r <= 0 && Compare(b, c) <= 0 {
+		verif.Assert(Compare(a, c) <= 0, "transitive")
+	}
+	verif.Reach("end")
+}
+
+// H_C15_num_str: a number against a string compares the number's decimal
+// text with the string.
+func H_C15_num_str() {
+	x := verif.IntRange("x", -3, 12)
+	half := verif.Choose("half", 2)
+	f := float64(x)
+	text := itoa(x)
+	if half == 1 {
+		f += 0.5
+		if x >= 0 {
+			text = itoa(x) + ".5"
+		} else if x == -1 {
+			text = "-0.5"
+		} else {
+			text = itoa(x+1) + ".5"
+		}
+	}
+	s := verif.Str("s", 2, "0123456789.-a")
+	r := Compare(f, s)
+	want := 0
+	if text < s {
+		want = -1
+	} else if text > s {
+		want = 1
+	}
+	verif.Assert(r == want, "decimal-text-order")
+	verif.Assert(Compare(s, f) == -r, "antisymmetric")
+	verif.Reach("end")
+}
+
+func itoa(n int) string {
+	if n == 0 {
+		return "0"
+	}
+	neg := n < 0
+	if neg {
+		n = -n
+	}
+	s := ""
+	for n > 0 {
+		s = string(rune('0'+n%10)) + s
+		n /= 10
+	}
+	if neg {
+		s = "-" + s
+	}
+	return s
+}
+
+// H_C15_probe: solver probe (int vs float64).
+func H_C15_probe() {
+	a, fa := mkNum(0, "a")
+	b, fb := mkNum(11, "b")
+	r := Compare(a, b)
+	verif.Assert(r == sign(fa, fb), "mathematical-order")
+	verif.Assert(Compare(b, a) == -r, "antisymmetric")
 	verif.Reach("end")
 }
